@@ -13,7 +13,7 @@
    hence full theorems and no `_refuted`. *)
 From Coq Require Import List Arith ZArith Bool Permutation.
 From GoGit Require Import Base.Out Spec.Dag Model.CommitWalk Model.MergeBase
-  Proofs.C42 Proofs.C42Indep Proofs.C42Top.
+  Proofs.Worklist Proofs.C42 Proofs.C42Indep Proofs.C42Top Proofs.C42Shallow.
 Import ListNotations.
 
 (* the specification side: [is_anc] (fuel = node count) decides reachability *)
@@ -61,6 +61,19 @@ Theorem C42_ff : forall g (old new : node),
   is_fast_forward g old new [] = BOk (is_anc g old new).
 Proof. exact is_fast_forward_spec. Qed.
 Print Assumptions C42_ff.
+
+(* isFastForward on a shallow history (parents of shallow commits absent from the store, every
+   absent parent belonging to a commit listed as shallow): the parents of the shallow commits are
+   ignored; the answer is true exactly when old is reached from new through the remaining history,
+   or some shallow commit is (the documented relaxation: ancestry cannot be disproved locally) *)
+Theorem C42_ff_shallow : forall g (old new : node) (shallows : list node),
+  new < nnodes g ->
+  (forall c p : node, c < nnodes g -> In p (parents g c) -> nnodes g <= p -> In c shallows) ->
+  let I := ff_ignore g shallows in
+  exists b, is_fast_forward g old new shallows = BOk b /\
+    (b = true <-> ra (succ_I g I) I new old \/ exists s, In s shallows /\ ra (succ_I g I) I new s).
+Proof. exact is_fast_forward_shallow. Qed.
+Print Assumptions C42_ff_shallow.
 
 (* non-vacuity: a criss-cross history whose clocks run backwards (children older than parents) *)
 Example C42_criss_cross_skewed :
